@@ -77,4 +77,26 @@ C12GM == Grammar(
     "(eval (macroexpand (and _1 _2)))", "(macroexpand (cond _1 _2))">>,
   <<"(m2 _1 _2 _3)", "(or _1 _2 _3)", "(and _1 _2 _3)", "(cond _1 _2 true _3)">>)
 
+\* the protocol library (defprotocol / extend / satisfies? / find-type), memoize, the folds: lisp-defined parts of the
+\* standard library, read from their source text by the definition layer.  Receivers are scalars, atoms and macros:
+\* find-type consults `meta` for collections and functions, which the model leaves open (abstains).
+C12LCtxText == "(defprotocol Shape (area [this]) (scale [this k]) (desc [this & more])) " \o
+           "(extend :mal/number Shape {:area (fn [n] (* n n)) :scale (fn [n k] (* n k)) :desc (fn [n & more] (list :num n more))}) " \o
+           "(extend :mal/string Shape {:area (fn [s] (count (seq s)))} Shape {:scale (fn [s k] (str s k))}) " \o
+           "(extend :mal/keyword Shape {:area (fn [k] (trace! k)) :desc (fn [k & more] (cons k more))}) " \o
+           "(def at (atom 5)) (extend :mal/atom Shape {:area (fn [a] @a) :scale (fn [a k] (swap! a * k))}) " \o
+           "(def mf (memoize (fn [a] (trace! a) (list a a)))) (def x 7)"
+C12LCtxForms == ReadAll(C12LCtxText)
+
+C12GL == Grammar(
+  <<"3", "\"ab\"", ":k", "at", "nil", "'q", "true", "cond", "(trace! 2)", "x", "Shape",
+    "(macroexpand '(defprotocol P (m [this]) (n [this a & r])))", "(do (defprotocol P (m [this])) (extend :mal/number P {:m inc}) (m 1))">>,
+  <<"(area _1)", "(desc _1)", "(desc _1 1 2)", "(satisfies? Shape _1)", "(find-type _1)", "(mf _1)", "(scale _1)",
+    "(do (extend :mal/nil Shape {:area (fn [z] :none)}) (area _1))", "(do (extend :mal/number Shape {:desc (fn [n & r] r)}) (area _1))",
+    "(do (reset! Shape {}) (area _1))", "(count (keys (deref _1)))">>,
+  <<"(scale _1 _2)", "(desc _1 _2)", "(list (mf _1) (mf _2))", "(list (area _1) (area _2))",
+    "(reduce-kv (fn [a k v] (conj a [k v])) [] [_1 _2])", "(foldr (fn [e acc] (trace! e) (cons e acc)) () [_1 _2])",
+    "(do (extend _1 Shape {:area (fn [z] :new)}) (area _2))", "(do (extend (find-type _1) Shape {:area (fn [z] :new)} Shape {:scale (fn [z k] :news)}) (list (satisfies? Shape _1) (scale _2 1)))">>,
+  <<"(desc _1 _2 _3)", "(foldr list _1 [_2 _3])", "(reduce-kv list _1 [_2 _3])">>)
+
 =============================================================================
